@@ -130,7 +130,9 @@ def bad_segments(node):
     if isinstance(node, dict):
         return [('missing-key', BAD), ('missing-key-int', 99)]
     if isinstance(node, (list, tuple)):
-        return [('index-out-of-range', 99), ('index-out-of-range-neg', -99), ('non-integer-index', 'x9')]
+        n = len(node)
+        return [('index-out-of-range', 99), ('index-out-of-range-neg', -99), ('non-integer-index', 'x9'),
+                ('index-just-past-end', n), ('index-just-before-start', -n - 1), ('index-minus-2len', -2 * n if n else -1)]
     if isinstance(node, (gen.PlainObj, gen.LogObj, gen.SlotObj)):
         return [('missing-attribute', BAD)]
     if node is None:
